@@ -90,6 +90,14 @@ fn classify_back(m: &str) -> Option<(&'static str, &'static str, Vec<String>)> {
             head.rfind("\": ").and_then(|p| int_prefix(&head[p + 3..]))
         });
         ("pass", "enum_value_too_high", nums(&[value, max]))
+    } else if has("is too low for enum") {
+        // `…on field "f": {value} (min = {min})`
+        let min = int_after_last(m, "(min = ");
+        let value = m.rfind(" (min = ").and_then(|end| {
+            let head = &m[..end];
+            head.rfind("\": ").and_then(|p| int_prefix(&head[p + 3..]))
+        });
+        ("pass", "enum_value_too_low", nums(&[value, min]))
     } else if has("More than one default defined on enum") {
         ("pass", "enum_multi_default", none())
     } else if has("More than one catch all defined on enum") {
